@@ -84,6 +84,10 @@ def gen_c13_special(rnd, tier):
     for dn in ((9, 3) if tier == 'quick' else (1, 3, 9, 13, 15)):
         out.append({'m': 'section', 'op': 'section', 'wd': 8000, 'name': 'prism80', 'vpos': vpos, 'faces': faces, 'convex': True,
                     'n': [0, 0, 1], 'dn': dn, 'dd': 8, 'T': IDENT})
+    # the same prism with a curve tolerance of 1.5 .. 4 units: runs of short sides merge, the loop must stay within the tolerance
+    for dn, st in (((9, 40), (3, 24), (13, 56)) if tier == 'quick' else [(d, t) for d in (1, 3, 9, 13, 15) for t in (20, 24, 40, 56, 64)]):
+        out.append({'m': 'section', 'op': 'section', 'wd': 8000, 'name': 'prism80_tol', 'vpos': vpos, 'faces': faces, 'convex': True,
+                    'n': [0, 0, 1], 'dn': dn, 'dd': 8, 'T': IDENT, 'stol16': st, 'tolloop': 1})
     for k in range(2 if tier == 'quick' else 12):
         va, fa = _box(0, 0, 8, 8, 2, 0)
         vb, fb = _box(12 + rnd.randint(0, 3), rnd.randint(0, 5), 1, 1, 2, 8)
